@@ -304,6 +304,10 @@ func init() {
 			Bounds: "F=2 files, concrete ids/mappings, one symbolic constraint; the real file system (symlinks, extension probing), HTTP refs, F>2 and --schema-root-type mappings are not covered; os.Stat is a virtual-file-system stub",
 			Panic:  "inconclusive"},
 	}})
+	properties["C20"].Units = append(properties["C20"].Units,
+		Unit{Name: "same-base-name/solo-vs-joint", Harness: "pkg/generator:HarnessC20Solo", Layer: "L3", Only: "C20.",
+			Desc:   "two schema files with the SAME base name (billing/config.json, shipping/config.json; same-named definitions; optionally the same --schema-root-type) mapped to different packages and files, loaded through the default loaders from a virtual file system in both argument orders: exactly the two mapped outputs exist and each is byte-identical to the output of generating that schema alone",
+			Bounds: "two files, concrete content", Panic: "inconclusive"})
 	reg(&Property{ID: "C10", Units: []Unit{
 		{Name: "inline-vs-ref", Harness: "pkg/generator:HarnessC10", Layer: "L3",
 			Desc:   "every shape of the grammar generated twice -- inline and as #/$defs/Def referenced by x -- and both emitted programs run on the SAME symbolic document: same verdict",
@@ -321,6 +325,10 @@ func init() {
 			Bounds: "one recursive definition, nesting depth 3",
 			Panic:  "inconclusive"},
 		collidingNamesUnit("C10."),
+		{Name: "file-references/relative-to-the-referrer", Harness: "pkg/generator:HarnessC10Files", Layer: "L3", Only: "C10.",
+			Desc:   "DoFile with the DEFAULT loaders (CachedLoader -> MultiLoader -> FileLoader, QualifiedFileName with and without --resolve-extension probing, FromJSONFile and the real parser) on a virtual file system: root.json -> model/order.json -> model/types/money.json, optionally with a back reference order -> ../root.json, and decoy money.json files where a resolution relative to the wrong document would look: generation succeeds and the emitted root type enforces the REAL money.json (minLength) on a symbolic document",
+			Bounds: "one layout (three directories), concrete files, references with and without extension; symlinks, HTTP and YAML targets are outside; os.Stat/Open are the virtual-file-system model",
+			Quick:  map[string]int{"GRID": 2, "GRIDMAG": 36}, Panic: "inconclusive"},
 		{Name: "refs-across-documents", Harness: "pkg/generator:HarnessC20", Layer: "L3", Only: "C10.",
 			Desc:   "two documents in one run, each with its own definition named Base behind the same reference string #/$defs/Base inside allOf: the emitted Money type enforces ITS document's Base (symbolic minLength, symbolic document)",
 			Bounds: "two files, three package layouts, both argument orders",
